@@ -1883,3 +1883,137 @@ impl Campaign for QueueStatsIdentity {
         }
     }
 }
+
+// ---------------------------------------------------------------------------
+// C19 (and C13): a buffered UDP sink over a *connected* socket whose peer port was closed
+// for a while (ICMP port unreachable leaves a pending error on the socket). Whatever the
+// socket reports and whenever, lines that fit into the empty buffer together must not be
+// sent one by one.
+
+#[derive(Serialize, Deserialize, Clone, Debug)]
+pub struct ConnectedUdpCase {
+    pub cap: u16,
+    pub len: u8,
+}
+
+pub struct ConnectedUdpGreedy;
+
+impl Campaign for ConnectedUdpGreedy {
+    type Case = ConnectedUdpCase;
+    fn name(&self) -> &'static str {
+        "udp-connected-pending-error-greedy"
+    }
+    fn max_shrink_iters(&self) -> u32 {
+        10
+    }
+    fn strategy(&self, _tier: Tier) -> BoxedStrategy<ConnectedUdpCase> {
+        (24u16..96, 3u8..10).prop_map(|(cap, len)| ConnectedUdpCase { cap, len }).boxed()
+    }
+    fn check(&self, case: &ConnectedUdpCase, _ctx: &Ctx) -> Outcome {
+        let skip = |why: &str| {
+            util::mark_inconclusive(why);
+            Outcome::ok()
+        };
+        let line = |tag: char, i: usize| -> String {
+            let mut s = String::new();
+            s.push(tag);
+            while s.len() + 4 < case.len as usize + 4 {
+                s.push((b'a' + (i % 26) as u8) as char);
+            }
+            s.push_str(":1|c");
+            s
+        };
+        let l = line('p', 0).len() + 1;
+        let cap = case.cap as usize;
+        // k lines fit into the empty buffer, but not on top of the two earlier ones
+        let k = (cap / l).min(4);
+        if k < 2 || (k + 2) * l <= cap {
+            return Outcome::ok();
+        }
+        let rx = match UdpSocket::bind("127.0.0.1:0") {
+            Ok(r) => r,
+            Err(e) => return skip(&e.to_string()),
+        };
+        let addr = rx.local_addr().unwrap();
+        drop(rx); // nobody listens: the first datagram bounces
+        let sock = match UdpSocket::bind("127.0.0.1:0").and_then(|s| s.connect(addr).map(|_| s)) {
+            Ok(s) => s,
+            Err(e) => return skip(&e.to_string()),
+        };
+        let sink = match BufferedUdpMetricSink::with_capacity(addr, sock, cap) {
+            Ok(s) => s,
+            Err(e) => return skip(&e.to_string()),
+        };
+        let mut bad: Vec<String> = Vec::new();
+        for i in 0..2 {
+            if let Err(e) = sink.emit(&line('p', i)) {
+                bad.push(format!("emit into an empty buffer failed: {}", e));
+            }
+        }
+        let first_flush = sink.flush();
+        std::thread::sleep(Duration::from_millis(3));
+        let rx2 = match UdpSocket::bind(addr) {
+            Ok(r) => r,
+            Err(e) => return skip(&format!("cannot re-bind the port: {}", e)),
+        };
+        let _ = rx2.set_nonblocking(true);
+        let recv_all = |rx: &UdpSocket| -> Vec<Vec<u8>> {
+            let mut out = Vec::new();
+            let mut buf = vec![0u8; 65536];
+            std::thread::sleep(Duration::from_micros(300));
+            while let Ok(n) = rx.recv(&mut buf) {
+                out.push(buf[..n].to_vec());
+            }
+            out
+        };
+        // Whatever the first flush reported (the pending socket error may surface there, making the two
+        // lines "still pending", or later): all lines have the same size, so a datagram that leaves while
+        // the next k lines are emitted must have been too full for one more line.
+        let pending_before = if first_flush.is_ok() { 0 } else { 2 };
+        let mut during_emits: Vec<Vec<u8>> = Vec::new();
+        let mut acked: Vec<String> = Vec::new();
+        for i in 0..k {
+            let m = line('q', i);
+            match sink.emit(&m) {
+                Ok(_) => acked.push(m),
+                Err(_) => break, // the socket's pending error may surface in any call
+            }
+            during_emits.extend(recv_all(&rx2));
+        }
+        if let Some(d) = during_emits.iter().find(|d| d.len() + l <= cap) {
+            bad.push(format!(
+                "while {} lines of {} bytes (+terminator) were emitted into a buffer of capacity {} a datagram of only {} bytes was sent ('{}') although one more line still fitted: it was packed against a phantom remainder (first flush after the peer was gone returned {})",
+                k,
+                l - 1,
+                cap,
+                d.len(),
+                show(d),
+                if first_flush.is_ok() { "Ok" } else { "an error" }
+            ));
+        }
+        if pending_before == 0 && acked.len() == k && bad.is_empty() {
+            // the remainder goes out in one datagram once a flush succeeds
+            let mut flushed = false;
+            for _ in 0..3 {
+                if sink.flush().is_ok() {
+                    flushed = true;
+                    break;
+                }
+            }
+            let after = recv_all(&rx2);
+            if flushed && during_emits.is_empty() && after.len() != 1 {
+                bad.push(format!("after a successful flush {} datagrams arrived for {} buffered lines that fit into one", after.len(), k));
+            }
+        }
+        drop(sink);
+        Outcome {
+            verdict: match bad.first() {
+                None => Ok(()),
+                Some(b) => Err(b.clone()),
+            },
+            nontrivial: acked.len() == k,
+            fingerprint: util::hash_json(case),
+            classes: vec![if pending_before == 0 { "connected UDP socket, peer gone: first flush Ok" } else { "connected UDP socket, peer gone: first flush reported the pending error" }],
+        }
+    }
+}
